@@ -47,3 +47,15 @@ Lemma status_check_last swarn (c : bool) tag :
   status_of (if c then policy_err swarn tag else Val (OkR tt)) =
   if c && negb (swarn tag) then Some false else Some true.
 Proof. unfold policy_err. destruct c; [destruct (swarn tag)|]; reflexivity. Qed.
+
+Lemma sub_p_ok prof a b : b <= a -> a <= U64MAX -> sub_p prof a b = Val (a - b).
+Proof.
+  intros H Ha. destruct prof; cbn [sub_p].
+  - destruct (b <=? a) eqn:E; [reflexivity | lia].
+  - unfold sub_wrap. f_equal. unfold two64, U64MAX in *.
+    replace (a + 18446744073709551616 - b) with ((a - b) + 1 * 18446744073709551616) by lia.
+    rewrite N.mod_add by lia. apply N.mod_small. lia.
+Qed.
+
+Lemma is_empty_len {A} (l : list A) : is_empty_of l = (len_of l =? 0).
+Proof. destruct l; [reflexivity|]. unfold len_of. cbn [is_empty_of length]. symmetry. apply N.eqb_neq. lia. Qed.
